@@ -295,29 +295,43 @@ def r053(report, g, lm, only_div, only_re, headers, tier='quick'):
     n = 0
     for ctx, exp, label in contexts:
         for run in runs:
-            ev = Evaluator(lm.module, 'Lexer', methods, {
-                'AutoLexToken': lambda: Obj('AutoLexToken')})
-            lexer = mk_lexer_obj(lm=lm)
-            # markers inside the context as well: after the first token
-            try:
-                feed(ev, methods, lexer, list(ctx) + list(run))
-                got = token_path(lm, methods, lexer)
-            except Raised as e:
-                got = 'raised %s' % e.text[:40]
-            n += 1
-            construct = '%s %s /' % (label, ' '.join(run))
-            if got == exp:
-                rule.ok(construct)
-                continue
-            if not run and ctx and ctx[0] in headers:
-                cls = 'header %s' % ctx[0].lower()
-            elif not run:
-                cls = 'context %s' % label
-            else:
+            # the markers after the context, and - comments and line
+            # terminators may stand between any two tokens - at every
+            # position inside it
+            places = [len(ctx)]
+            if run and len(ctx) > 1:
+                places += list(range(1, len(ctx)))
+            for at in places:
+                ev = Evaluator(lm.module, 'Lexer', methods, {
+                    'AutoLexToken': lambda: Obj('AutoLexToken')})
+                lexer = mk_lexer_obj(lm=lm)
+                seq = list(ctx[:at]) + list(run) + list(ctx[at:])
+                try:
+                    feed(ev, methods, lexer, seq)
+                    got = token_path(lm, methods, lexer)
+                except Raised as e:
+                    got = 'raised %s' % e.text[:40]
+                n += 1
+                inside = at < len(ctx)
+                construct = '%s %s /' % (label, ' '.join(run)) if \
+                    not inside else '%s with %s after its %s /' % (
+                        label, ' '.join(run), ctx[at - 1])
+                if got == exp:
+                    rule.ok(construct)
+                    continue
                 kind = 'header' if exp == 're' and any(
                     t in headers for t in ctx) else 'plain'
-                cls = 'markers after %s context' % kind
-            failing.setdefault(cls, []).append((construct, got, exp))
+                if inside:
+                    cls = 'markers inside a %s context after %s' % (
+                        kind, ctx[at - 1] if ctx[at - 1] not in headers
+                        else 'the header keyword')
+                elif not run and ctx and ctx[0] in headers:
+                    cls = 'header %s' % ctx[0].lower()
+                elif not run:
+                    cls = 'context %s' % label
+                else:
+                    cls = 'markers after %s context' % kind
+                failing.setdefault(cls, []).append((construct, got, exp))
     for cls, items in sorted(failing.items()):
         c, got, exp = items[0]
         rule.fail(cls, '%s  (+%d more)' % (c.strip(), len(items) - 1),
